@@ -40,6 +40,10 @@ func (m *Migrator) Migrate(body []byte, target uint) (newBody []byte, upgraded b
 	err = yaml.Unmarshal(body, &diskConf)
 	if err != nil {
 		return body, false, fmt.Errorf("parsing config file for upgrade: %w", err)
+	} else if diskConf == nil {
+		// A document consisting of an explicit null resets the map to nil.
+		// Treat it like an empty document.
+		diskConf = yobj{}
 	}
 
 	currentInt, _, err := fieldVal[int](diskConf, "schema_version")
